@@ -153,9 +153,16 @@ def run_c16(ctx):
              "pre-grow-raised")
     present = set(pre)
     explicit = None
+    ids_as_range = False
     if state == "explicit-ids":
         n = t.int_between(1, B, "nexplicit")
         explicit = t.perm(allb, "explicit-ids")[:n]
+        if t.flag(1, 5, "explicit-run"):
+            # a consecutive run of ids, passed the natural way: batch_ids=range(lo, hi + 1)
+            lo_ = 1 + t.choose(B, "run-lo")
+            hi_ = lo_ + t.choose(B - lo_ + 1, "run-len")
+            explicit = list(range(lo_, hi_ + 1))
+            ids_as_range = True
     missing = [b for b in allb if b not in present]
     mode = t.pick(["array", "single", "cli"], "mode")
     env = dict(os.environ)
@@ -222,6 +229,9 @@ def run_c16(ctx):
         os.remove(kill_path)
         _, ncalls = child_calls_since(ncalls)
         if not fired:
+            # the job ended without ever evaluating that setting: if it failed, that is
+            # the code under test (reported as for any other job); otherwise the harness
+            check_child(cp, what)
             raise HarnessError("{}: the kill point was never reached (rc {}): {}".format(
                 what, cp.returncode, (cp.stderr or "")[-300:]))
         w.fired["job-killed-while-running"] += 1
@@ -288,6 +298,8 @@ def run_c16(ctx):
         outdir = os.path.join(root, "Scratch", "output")
         opts = dict(mode=mode, launcher=PY, conda_env=False, output_directory=outdir, **res)
         ids_arg = None if explicit is None else (explicit if t.flag(1, 2, "ids-as-list") else tuple(explicit))
+        if ids_as_range:
+            ids_arg = range(explicit[0], explicit[-1] + 1)
         ctx.t("gen_cluster_script", scheduler, {"batch_ids": ids_arg, **{k: v for k, v in opts.items()
                                                                       if k not in ("launcher", "output_directory")}})
 
